@@ -33,7 +33,11 @@ def runtime_bodies(ctx, core):
 
 def derived_population(ctx):
     out = []
-    for c in ctx.test_crates():
+    crates = list(ctx.test_crates())
+    if ctx.tier == "thorough":
+        from . import corpus
+        crates += corpus.corpus_crates(ctx)
+    for c in crates:
         for b in ctx.all_bodies(c):
             if b.derived and (b.impl or {}).get("trait", "").startswith("darling_core::") or "__validate_body" in b.key and b.derived:
                 out.append(b)
